@@ -299,11 +299,9 @@ func propC16Cache(c c16CacheCase) (ev.Outcome, error) {
 			}
 		}
 	}()
-	select {
-	case <-done:
-	case <-time.After(20 * time.Second):
+	if _, ok := ev.Await(done, 20*time.Second, ev.HangLimit); !ok {
 		close(r.stopReaders)
-		return o, fmt.Errorf("request cache: operations did not finish within 20 s after every fetch was released (a Get never returned)")
+		return o, fmt.Errorf("request cache: operations did not finish within %v after every fetch was released (a Get never returned)", ev.HangLimit)
 	}
 	close(r.stopReaders)
 	wg.Wait()
